@@ -147,6 +147,98 @@ def step (st : Unit) (j : Json) : Unit × Json :=
                                               ("d", dictJ d')]])
           | _ => throw s!"op {kind}") (init, [])
         pure (okJson (Json.arr outs.toArray))
+    | "registry" =>
+        -- {"allowed":[k], "defaults":[[k,v]], "n0":nat, "ops":[{"op":"new"} | {"op":"add","i":i,"k":k,"v":v} |
+        --   {"op":"set","i":i,"items":[[k,v]]} | {"op":"reset_defaults","i":i}]}: every model's dict after every op
+        let allowed ← (← arrField j "allowed").toList.mapM (·.getStr?)
+        let pairs := fun (a : Json) => do
+          (← a.getArr?).toList.mapM fun it => do
+            let pr ← it.getArr?
+            if pr.size != 2 then throw "pair" else
+            pure ((← pr[0]!.getStr?), pr[1]!)
+        let defaults : CDict Json ← pairs (← field j "defaults")
+        let n0 ← natField j "n0"
+        let dictJ := fun (d : CDict Json) => Json.arr (d.map fun (k, v) => Json.arr #[Json.str k, v]).toArray
+        let regJ := fun (r : Registry Json) => Json.arr (r.map dictJ).toArray
+        let ops ← (← arrField j "ops").toList.mapM fun o => do
+          let kind ← strField o "op"
+          match kind with
+          | "new" => pure (RegOp.new : RegOp Json)
+          | "add" => pure (RegOp.add (← natField o "i") (← strField o "k") (← field o "v"))
+          | "set" => pure (RegOp.set (← natField o "i") (← pairs (← field o "items")))
+          | "reset_defaults" => pure (RegOp.resetDefaults (← natField o "i"))
+          | _ => throw s!"op {kind}"
+        let init : Registry Json := List.replicate n0 defaults
+        let (fin, outs) := ops.foldl (fun (acc : Registry Json × List Json) op =>
+          let r := regStep allowed defaults acc.1 op
+          (r.1, acc.2 ++ [Json.mkObj [("r", Json.str (match r.2 with | none => "ok" | some _ => "KeyError")),
+                                      ("reg", regJ r.1)]])) (init, [])
+        -- the same history seen by every model alone (`models_isolated`): must equal the registry entry
+        let alone := (List.range fin.length).map fun jx =>
+          if jx < n0 then dictJ (runDict allowed defaults jx defaults ops) else Json.null
+        pure (okJson (Json.mkObj [("steps", Json.arr outs.toArray), ("alone", Json.arr alone.toArray)]))
+    | "probe_ops" =>
+        -- {"n":n, "roi":[h,w], "w":[bits], "stack":[img], "orth":bool, "ops":[{"op":"set_weights","w":null|[bits]} |
+        --   {"op":"set_initial","roi":[h,w],"M":bits,"ramps":[img]} | {"op":"set_probe","p":[img]} | {"op":"reset"}]}
+        let n ← natField j "n"
+        let roi ← natList (← field j "roi")
+        let w ← realRow (← field j "w")
+        let stack ← cxArr3 (← field j "stack")
+        let orth ← boolField j "orth"
+        let roiP := fun (l : List Nat) => (l.getD 0 0, l.getD 1 0)
+        let ops ← (← arrField j "ops").toList.mapM fun o => do
+          let kind ← strField o "op"
+          match kind with
+          | "set_weights" =>
+              match o.getObjVal? "w" with
+              | .ok .null => pure (ProbeOp.setWeights none : ProbeOp Float)
+              | .ok x => pure (ProbeOp.setWeights (some (← realRow x)))
+              | .error _ => pure (ProbeOp.setWeights none)
+          | "set_initial" =>
+              pure (ProbeOp.setInitial (roiP (← natList (← field o "roi"))) (← floatOfJson (← field o "M"))
+                      (← cxArr3 (← field o "ramps")))
+          | "set_probe" => pure (ProbeOp.setProbe (← cxArr3 (← field o "p")))
+          | "reset" => pure ProbeOp.reset
+          | _ => throw s!"op {kind}"
+        let param ← match j.getObjVal? "param" with
+          | .ok p => cxArr3 p
+          | .error _ => pure stack
+        let init : ProbeModel Float :=
+          { numProbes := n, roi := roiP roi, weights := w, initial := stack, param := param, meanInt := none }
+        let outs := (ops.foldl (fun (acc : ProbeModel Float × List Json) op =>
+          let r := probeStep acc.1 op
+          (r.1, acc.2 ++ [Json.mkObj [("r", Json.str (match r.2 with | none => "ok" | some _ => "ValueError")),
+                                      ("w", realRowJ r.1.weights), ("initial", cxArr3J r.1.initial),
+                                      ("param", cxArr3J r.1.param),
+                                      ("probe", cxArrJ (probeApplyHard orth (r.1.param.map List.flatten)))]])) (init, [])).2
+        let fin := runProbeOps init ops
+        pure (okJson (Json.mkObj [("steps", Json.arr outs.toArray), ("w", realRowJ fin.weights),
+                                  ("wlast", realRowJ (lastAcceptedWeights n w ops))]))
+    | "tomo_d" =>
+        -- {"pos":val, "shr":val, "obj":[bits]} with val = null | {"b":bool} | {"n":bits}
+        let val := fun (x : Json) => do
+          match x with
+          | .null => pure (TomoVal.none : TomoVal Float)
+          | _ => match x.getObjVal? "b" with
+                 | .ok b => pure (TomoVal.bool (← b.getBool?))
+                 | .error _ => pure (TomoVal.num (← floatOfJson (← field x "n")))
+        let pos ← val (fieldD j "pos" Json.null)
+        let shr ← val (fieldD j "shr" Json.null)
+        let obj ← realRow (← field j "obj")
+        pure (okJson (Json.mkObj [("obj", realRowJ (tomoApplyHardD pos shr obj))]))
+    | "defaults" =>
+        let c : ObjCons Float := objDefaultCons
+        let tv := fun (v : TomoVal Float) => match v with
+          | .bool b => Json.mkObj [("b", Json.bool b)]
+          | .num x => Json.mkObj [("n", floatToJson x)]
+          | .none => Json.null
+        pure (okJson (Json.mkObj [
+          ("object", Json.mkObj [("positivity", Json.bool c.positivity), ("fix_potential_baseline", Json.bool c.fixBaseline),
+                                 ("fix_potential_baseline_factor", floatToJson c.baselineFactor),
+                                 ("identical_slices", Json.bool c.identicalSlices), ("apply_fov_mask", Json.bool c.applyFovMask)]),
+          ("probe", Json.mkObj [("orthogonalize_probe", Json.bool probeDefaultOrthogonalize),
+                                ("center_probe", Json.bool probeDefaultCenter)]),
+          ("tomo", Json.mkObj [("positivity", tv tomoDefaultPositivity), ("shrinkage", tv tomoDefaultShrinkage)])]))
     | "norm_weights" =>
         let w ← realRow (← field j "w")
         pure (okJson (Json.mkObj [("w", realRowJ (normWeights w))]))
